@@ -46,10 +46,15 @@ def gen(seed, tier):
         stack.append(e)
     ops = []
     t = 0.0
+    reconf_world = rng.random() < 0.15
     for _ in range(rng.randint(1, 12) if rng.random() < 0.8 else rng.randint(13, 40)):
         t += rng.choice([0.0, 0.0, 0.25, 0.5, 1.0])
-        k = rng.choice(["write", "write", "write", "read", "read", "state", "outside"])
-        if k == "write":
+        k = rng.choice(["write", "write", "write", "read", "read", "state", "outside"] + (["reconf"] if reconf_world else []))
+        if k == "reconf":
+            # a Logger's name / level are plain attributes: changed between two writes, later
+            # records go to the new logger at the new level
+            ops.append({"t": t, "k": k, "which": rng.randrange(6), "name": rng.choice(["keep", "verif.c16.a", "verif.c16.b", "verif.c16.renamed"]), "level": rng.choice(["keep", 10, 20, 30])})
+        elif k == "write":
             ops.append({"t": t, "k": k, "value": rng.choice(VALS)})
         elif k == "read":
             ops.append({"t": t, "k": k})
@@ -207,6 +212,16 @@ def run(scenario, tape_values):
                     pool.poke(attr, op[attr])
             elif k == "outside":
                 pool.poke("demand", op["value"])
+            elif k == "reconf":
+                idxs = [i for i, kk in enumerate(kinds) if kk == "logger"]
+                if idxs:
+                    i = idxs[op["which"] % len(idxs)]
+                    if op["name"] != "keep":
+                        prepare_logger(op["name"])
+                        objs[i].name = op["name"]
+                    if op["level"] != "keep":
+                        objs[i].level = op["level"]
+                    world.log("reconf", idx=i, name=None if op["name"] == "keep" else op["name"], level=None if op["level"] == "keep" else op["level"])
             else:
                 raise ScenarioInvalid(k)
             passthrough_check(k)
@@ -228,6 +243,17 @@ def run(scenario, tape_values):
                 break
     # -- log records -----------------------------------------------------------
     ev = world.events
+    reconfs = [e for e in ev if e["kind"] == "reconf"]
+
+    def cfg_at(i, seq):
+        """(logger name, level) Logger #i is configured with at event `seq`."""
+        name, level = stack[i]["_resolved_name"], stack[i]["level"]
+        for rc in reconfs:
+            if rc["idx"] == i and rc["seq"] < seq:
+                name = rc["name"] if rc["name"] is not None else name
+                level = rc["level"] if rc["level"] is not None else level
+        return name, level
+
     # state of the pool before each pool write
     state = dict(sc["pool"])
     prev_write_seq = 0
@@ -237,10 +263,11 @@ def run(scenario, tape_values):
         if e.get("pool") == "pool" and e["kind"] == "write":
             recs = [r for r in ev if r["kind"] == "log-record" and prev_write_seq < r["seq"] < e["seq"]]
             for i, spec in bottom_loggers:
-                mine = [r for r in recs if r["target_tok"] == spec["_target_tok"] and r["logger"] == spec["_resolved_name"] and r["level"] == spec["level"] and r["msg"] == (spec.get("message") or DEFAULT)]
+                cname, clevel = cfg_at(i, e["seq"])
+                mine = [r for r in recs if r["target_tok"] == spec["_target_tok"] and r["logger"] == cname and r["level"] == clevel and r["msg"] == (spec.get("message") or DEFAULT)]
                 wrong = [r for r in recs if r["target_tok"] == spec["_target_tok"] and r not in mine]
                 if wrong:
-                    V("C16/record-wrong-logger-or-level", "Logger #%d (%s, level %s) emitted a record on logger %r at level %r with message %r" % (i, spec["_resolved_name"], spec["level"], wrong[0]["logger"], wrong[0]["level"], wrong[0]["msg"]))
+                    V("C16/record-wrong-logger-or-level", "Logger #%d (%s, level %s) emitted a record on logger %r at level %r with message %r" % (i, cname, clevel, wrong[0]["logger"], wrong[0]["level"], wrong[0]["msg"]))
                 if len(mine) != 1:
                     later = [r for r in ev if r["kind"] == "log-record" and r["seq"] > e["seq"] and r["target_tok"] == spec["_target_tok"]]
                     V("C16/record-count", "pool write of %r (seq %d): Logger #%d (%s, level %s) emitted %d records before it, expected %d%s" % (e["value"], e["seq"], i, spec["_resolved_name"], spec["level"], len(mine), 1, "; a record follows the write" if later and not mine else ""))
@@ -258,7 +285,8 @@ def run(scenario, tape_values):
     for n, w in enumerate(tw):
         hi = tw[n + 1]["seq"] if n + 1 < len(tw) else 10**12
         for i, spec in top_loggers:
-            mine = [r for r in ev if r["kind"] == "log-record" and w["seq"] < r["seq"] < hi and r.get("op") == "write" and r["target_tok"] == spec["_target_tok"] and r["logger"] == spec["_resolved_name"] and r["level"] == spec["level"] and r["msg"] == (spec.get("message") or DEFAULT)]
+            cname, clevel = cfg_at(i, w["seq"])
+            mine = [r for r in ev if r["kind"] == "log-record" and w["seq"] < r["seq"] < hi and r.get("op") == "write" and r["target_tok"] == spec["_target_tok"] and r["logger"] == cname and r["level"] == clevel and r["msg"] == (spec.get("message") or DEFAULT)]
             same = [spec]
             if len(mine) != len(same):
                 V("C16/record-count-top", "write of %r at the top: Logger #%d (%s) emitted %d records, expected %d" % (w["value"], i, spec["_resolved_name"], len(mine), len(same)))
